@@ -13,7 +13,9 @@ from ..render import COMMA, END, I, K, L, LP, N, RP, T, V, plist, render_script
 
 LEAF_WORDS = ["STRING", "INT", "int", "bigint", "string", "DOUBLE", "DATE", "boolean", "TIMESTAMP", "float", "BINARY", "Decimal", "varchar", "tinyint"]
 TWO_WORD = [["double", "precision"], ["character", "varying"], ["long", "raw"], ["bit", "varying"], ["int", "unsigned"], ["DOUBLE", "PRECISION"]]
-FIELD_NAMES = ["a", "b", "fld", "x1", "Name", "street", "zip_code", "f2"]
+FIELD_NAMES = ["a", "b", "fld", "x1", "Name", "street", "zip_code", "f2",
+               # field names that merely begin with a type word
+               "array_tags", "arrays", "Arrayed", "map_id", "mapping", "structure", "struct_ref", "int_val", "string_ref", "date_of", "year"]
 AFTER = [None, None, "STORED AS PARQUET", "COMMENT 'tc'", "PARTITIONED BY (dt string)"]
 
 
